@@ -206,6 +206,72 @@ func runC01(c *Ctx) {
 		}
 	}
 
+	// (2b) catch-up: a positive wait is only possible when the attacker is on or ahead of schedule
+	const rCatch = "Pace compares the hits released so far with the hits due at `elapsed` (hits < expected ⇒ return (0,false): catch up without waiting); every return that can carry a non-zero wait lies on the not-behind edge of that comparison, and `expected` is computed from the elapsed parameter"
+	for _, fn := range roots {
+		if fn.Name() != "Pace" || shortFn(fn) == "(lib.PacerFunc).Pace" {
+			continue
+		}
+		hits := paramOfType(fn, types.Typ[types.Uint64])
+		var elapsed *ssa.Parameter
+		for _, p := range fn.Params {
+			if isNamedType(p.Type(), "time", "Duration") {
+				elapsed = p
+			}
+		}
+		key := "catch-up:" + shortFn(fn)
+		if hits == nil || elapsed == nil {
+			c.Undecided(key, rCatch, "Pace has no (elapsed, hits) parameters", c.fnAt(fn))
+			continue
+		}
+		var behind *ssa.BinOp
+		eachInstr(fn, func(i ssa.Instruction) {
+			bo, ok := i.(*ssa.BinOp)
+			if !ok {
+				return
+			}
+			if bo.Op == token.LSS && bo.X == ssa.Value(hits) || bo.Op == token.GTR && bo.Y == ssa.Value(hits) {
+				other := bo.Y
+				if bo.Op == token.GTR {
+					other = bo.X
+				}
+				if flowsFrom(other, func(v ssa.Value) bool { return v == ssa.Value(elapsed) }) {
+					behind = bo
+				}
+			}
+		})
+		if behind == nil {
+			c.Fail(key, rCatch, "no `hits < expectedHits(elapsed)` comparison: a pacer that never looks at the hit count cannot tell a late attacker to catch up", c.fnAt(fn))
+			continue
+		}
+		ifB := trueImpliesIf(behind)
+		ok, why := ifB != nil, "the behind-schedule comparison does not control a branch"
+		if ok {
+			for _, r := range returnsIn(exploreBlock(ifB.Block().Succs[0], nil)) {
+				ret := r.(*ssa.Return)
+				w, isW := constInt(ret.Results[0])
+				st, isS := constBool(ret.Results[1])
+				if !isW || w != 0 || !isS || st {
+					ok, why = false, "an attacker behind schedule is not told (0, false)"
+				}
+			}
+			// every return with a possibly non-zero wait is on the not-behind side
+			eachInstr(fn, func(i ssa.Instruction) {
+				ret, isR := i.(*ssa.Return)
+				if !isR || len(ret.Results) != 2 {
+					return
+				}
+				if w, isW := constInt(ret.Results[0]); isW && w == 0 {
+					return
+				}
+				if !edgeDominates(ifB.Block(), 1, ret.Block()) && !notBehindKnown(ret.Block(), behind) {
+					ok, why = false, "a non-zero wait can be returned without having established that the attacker is not behind schedule"
+				}
+			})
+		}
+		c.Check(ok, key, rCatch, "behind ⇒ (0,false); waits only when not behind", why, c.at(behind))
+	}
+
 	// (3b) any other integer product of two run-time values can wrap silently
 	const rMul = "an integer multiplication of two run-time values in pacer code either involves hits and carries the MaxInt64/x < hits guard, or is the exempt schedule product Freq × (elapsed / Per), whose true value is the number of hits due and therefore cannot exceed a feasible hit count; any other product (e.g. elapsed × Freq before dividing) can wrap and make the pacer answer 'behind schedule' forever"
 	for _, fn := range fns {
@@ -549,4 +615,14 @@ func findOverflowGuard(fn *ssa.Function, mult ssa.Value, hits *ssa.Parameter) *s
 		}
 	})
 	return out
+}
+
+// notBehindKnown: the facts at b include the behind-schedule comparison being false.
+func notBehindKnown(b *ssa.BasicBlock, behind *ssa.BinOp) bool {
+	for _, f := range factsAt(b) {
+		if f.Cond == ssa.Value(behind) && !f.Val {
+			return true
+		}
+	}
+	return false
 }
